@@ -6,6 +6,10 @@
 //! Oracle: the harness keeps its own model of the parameters that should be current (last accepted
 //! values) and a validity table taken from the constructors' documented domains; twin comparison is
 //! bitwise (NaN = NaN). A rejected call is compared object-before vs object-after.
+//! Valid targets carry structure on purpose (exact coincidences between the two parameters or with
+//! their current values, one-sided changes, the edges of the documented domains): guards of the
+//! form `if new != self.field` and domain checks that differ between constructor and setter only
+//! show there.
 //! No FFI is used here: the lite workload runs under Miri (data-race detector on the thread part).
 use crate::gen::Rng;
 use crate::report::{guard, is_budget_panic, jf, par_cases, same_bits, Cfg, Hasher, Report};
@@ -463,27 +467,58 @@ fn initial(rng: &mut Rng, kind: Kind) -> Vec<f64> {
     p
 }
 
+/// Start of a history: the ordinary draw, or (20 %) two exactly equal parameters / one parameter at an
+/// edge of its domain — the constructor is the reference for what is valid.
+fn initial_structured(rng: &mut Rng, kind: Kind) -> Vec<f64> {
+    let p = initial(rng, kind);
+    if rng.chance(0.2) {
+        let mut q = p.clone();
+        if q.len() == 2 && rng.chance(0.4) {
+            let i = rng.usize(0, 1);
+            q = vec![p[i], p[i]];
+        } else {
+            let i = rng.usize(0, q.len() - 1);
+            q[i] = extreme_value(rng, kind, i).0;
+        }
+        if vector_ok(kind, &q) {
+            return q;
+        }
+    }
+    p
+}
+
 /// A valid new value for parameter `i` given the rest of the model, on the requested side of the
 /// current value when that side is non-empty. Returns (value, "up" | "down" | "same").
 fn valid_target(rng: &mut Rng, kind: Kind, i: usize, model: &[f64]) -> (f64, &'static str) {
     let up = rng.bool();
     let (mut lo, mut hi, _) = range(kind, i);
     if kind.two_sided() {
+        // lower <= upper; the window follows the other bound when a history has left the moderate range
         if i == 0 {
-            hi = model[1]; // lower <= upper
+            hi = model[1];
+            lo = lo.min(hi - 2000.0);
         } else {
             lo = model[0];
+            hi = hi.max(lo + 2000.0);
         }
     }
-    let cur = model[i];
+    let real = model[i];
+    // a current value outside the moderate range (left there by an "extreme" step): draw on the
+    // requested side of its projection, i.e. move back into the moderate range
+    let cur = if kind.two_sided() { real } else { real.clamp(lo, hi) };
     let step = if kind.integer(i) { 1.0 } else { 0.0 };
     let (a, b) = if up { (cur + step, hi) } else { (lo, cur - step) };
     let (a, b) = if a > b || (a == b && !kind.integer(i) && a == cur) { if up { (lo, cur - step) } else { (cur + step, hi) } } else { (a, b) };
     if a > b {
-        return (cur, "same");
+        return (real, "same");
     }
     let v = draw_in(rng, kind, i, a, b);
-    (v, if v > cur { "up" } else if v < cur { "down" } else { "same" })
+    let mut next = model.to_vec();
+    next[i] = v;
+    if !vector_ok(kind, &next) {
+        return (real, "same"); // e.g. hi - lo overflowed between two huge bounds
+    }
+    (v, if v > real { "up" } else if v < real { "down" } else { "same" })
 }
 
 /// An invalid value for parameter `i` (None if the parameter has no invalid non-NaN value).
@@ -496,9 +531,260 @@ fn invalid_target(rng: &mut Rng, kind: Kind, i: usize, model: &[f64]) -> Option<
         (K::Normal, _) => Some(pick(rng, &[-1.0, -1e-3, -5e-324, -1e300, f64::NEG_INFINITY])),
         (K::DiscreteUniform, 0) => Some(model[1] + rng.int(1, 50) as f64),
         (K::DiscreteUniform, _) => Some(model[0] - rng.int(1, 50) as f64),
-        (K::Uniform, 0) => Some(model[1] + rng.log_range(1e-6, 1e3)),
-        (K::Uniform, _) => Some(model[0] - rng.log_range(1e-6, 1e3)),
+        // strictly beyond the other bound also where the offset is absorbed by a huge bound
+        (K::Uniform, 0) => {
+            let v = model[1] + rng.log_range(1e-6, 1e3);
+            Some(if v > model[1] { v } else { next_above(model[1]) })
+        }
+        (K::Uniform, _) => {
+            let v = model[0] - rng.log_range(1e-6, 1e3);
+            Some(if v < model[0] { v } else { -next_above(-model[0]) })
+        }
         _ => Some(pick(rng, &[0.0, -0.0, -1.0, -1e-3, -5e-324, -1e300, f64::NEG_INFINITY])),
+    }
+}
+
+// ---------------------------------------------------------------------------------------------
+// structured targets: exact coincidences between parameters and the extremes of the documented domains
+
+/// Documented domain of one parameter (the validity table of single values; `valid` adds the
+/// relation between the two bounds of the two-sided laws).
+#[derive(Clone, Copy, PartialEq, Eq)]
+enum Dom {
+    /// (0, inf): "panics if x <= 0"
+    Pos,
+    /// [0, inf): Normal sigma
+    NonNeg,
+    /// any real: location parameters
+    Real,
+    /// [0, 1]
+    Prob,
+    /// u64, every value valid (Binomial n)
+    Count,
+    /// usize >= 1 (ChiSquared dof)
+    Dof,
+    /// i64 bound of DiscreteUniform
+    Int,
+    /// f64 bound of Uniform
+    Bound,
+}
+
+fn dom(kind: Kind, i: usize) -> Dom {
+    match (kind, i) {
+        (K::Bernoulli, _) | (K::Binomial, 1) => Dom::Prob,
+        (K::Binomial, _) => Dom::Count,
+        (K::ChiSquared, _) => Dom::Dof,
+        (K::DiscreteUniform, _) => Dom::Int,
+        (K::Uniform, _) => Dom::Bound,
+        (K::Gumbel, 0) | (K::Normal, 0) => Dom::Real,
+        (K::Normal, _) => Dom::NonNeg,
+        _ => Dom::Pos,
+    }
+}
+
+/// Is `v` a value the monitor may present as VALID for parameter `i`? Finite values of the documented
+/// domain only (±inf and NaN are accepted by most constructors but are not parameters of any law);
+/// integer parameters stay where the f64 -> integer cast of `update` is exact and where the library's
+/// own integer arithmetic (upper - lower + 1, lower + upper) cannot overflow.
+fn value_ok(kind: Kind, i: usize, v: f64) -> bool {
+    if !v.is_finite() {
+        return false;
+    }
+    match dom(kind, i) {
+        Dom::Pos => v > 0.0,
+        Dom::NonNeg => v >= 0.0,
+        Dom::Real | Dom::Bound => true,
+        Dom::Prob => (0.0..=1.0).contains(&v),
+        Dom::Count => v >= 0.0 && v <= 1e18 && v.fract() == 0.0,
+        Dom::Dof => v >= 1.0 && v <= 1e18 && v.fract() == 0.0,
+        Dom::Int => v.abs() <= 1e15 && v.fract() == 0.0,
+    }
+}
+
+fn vector_ok(kind: Kind, p: &[f64]) -> bool {
+    p.len() == kind.nparams() && (0..p.len()).all(|i| value_ok(kind, i, p[i])) && valid(kind, p)
+}
+
+/// Outside the moderate range the ordinary generator draws from (used for labels and for the length
+/// of the compared sample stream only, never for a verdict).
+fn outside(kind: Kind, i: usize, v: f64) -> bool {
+    match dom(kind, i) {
+        Dom::Int | Dom::Bound => v.abs() > 1e6,
+        Dom::Real => v.abs() > 1e6 || (v != 0.0 && v.abs() < 1e-6),
+        Dom::Prob => (v > 0.0 && v < 1e-6) || (v < 1.0 && v > 1.0 - 1e-6),
+        _ => {
+            let (lo, hi, _) = range(kind, i);
+            v > hi || (v < lo && v != 0.0)
+        }
+    }
+}
+
+/// A valid value from the edges of the documented domain. "tiny": (0, moderate range) down to the
+/// smallest subnormal — 1e-300..1e-15 and the decades between 1e-15 and the moderate range, so that a
+/// positivity test against any threshold other than 0 (EPSILON, 1e-8, MIN_POSITIVE, ...) is met;
+/// "huge": up to f64::MAX (probabilities: up to the last value below 1; integers: up to 1e18 / 1e15).
+fn extreme_value(rng: &mut Rng, kind: Kind, i: usize) -> (f64, &'static str) {
+    let tiny = rng.bool();
+    let (lo, hi, _) = range(kind, i);
+    let mag = if tiny {
+        match rng.usize(0, 11) {
+            0 => 5e-324,
+            1 => f64::MIN_POSITIVE,
+            2 => f64::EPSILON * 0.5,
+            3 => 1e-15,
+            4..=7 => rng.log_range(1e-300, 1e-15),
+            _ => rng.log_range(1e-15, if lo > 1e-15 { lo } else { 1e-3 }),
+        }
+    } else {
+        match rng.usize(0, 11) {
+            0 => f64::MAX,
+            1 => 1e300,
+            2 => 1e15,
+            3..=7 => rng.log_range(1e15, 1e300),
+            _ => rng.log_range(if hi < 1e15 && hi > 0.0 { hi } else { 1e3 }, 1e15),
+        }
+    };
+    let sign = if rng.bool() { 1.0 } else { -1.0 };
+    let v = match dom(kind, i) {
+        Dom::Pos | Dom::NonNeg => mag,
+        Dom::Real | Dom::Bound => sign * mag,
+        Dom::Prob => {
+            if tiny {
+                mag
+            } else if rng.bool() {
+                1.0 - rng.usize(1, 4) as f64 * f64::EPSILON * 0.5
+            } else {
+                1.0 - rng.log_range(1.2e-16, 1e-3)
+            }
+        }
+        Dom::Count => {
+            if tiny {
+                rng.usize(0, 1) as f64
+            } else {
+                rng.log_range(2001.0, 1e18).floor()
+            }
+        }
+        Dom::Dof => {
+            if tiny {
+                1.0
+            } else {
+                rng.log_range(201.0, 1e18).floor()
+            }
+        }
+        Dom::Int => {
+            let m = if tiny { rng.usize(0, 1) as f64 } else { rng.log_range(1001.0, 1e15).floor() };
+            if m == 0.0 {
+                0.0
+            } else {
+                sign * m
+            }
+        }
+    };
+    (v, if tiny { "tiny" } else { "huge" })
+}
+
+/// Structured valid value for the single setter `i`: the current value of the same parameter ("same"),
+/// the current value of the other parameter ("cross"), or an edge of the domain ("tiny" / "huge").
+fn structured_value(rng: &mut Rng, kind: Kind, i: usize, model: &[f64]) -> Option<(f64, &'static str)> {
+    for _ in 0..6 {
+        let (v, tag) = match rng.usize(0, 5) {
+            0 => (model[i], "same"),
+            1 | 2 if kind.nparams() == 2 => (model[1 - i], "cross"),
+            _ => extreme_value(rng, kind, i),
+        };
+        let mut next = model.to_vec();
+        next[i] = v;
+        if vector_ok(kind, &next) {
+            return Some((v, tag));
+        }
+    }
+    None
+}
+
+/// Label of a valid bulk target by its structure relative to the current parameters (first match):
+/// same (nothing changes) / equal (both targets bit-equal) / swap / cross (a target equals the CURRENT
+/// value of the other parameter) / one-changes / extreme (a value outside the moderate range) / None.
+fn classify_update(kind: Kind, model: &[f64], p: &[f64]) -> Option<&'static str> {
+    let eq = |x: f64, y: f64| x.to_bits() == y.to_bits();
+    if p.iter().zip(model).all(|(x, y)| eq(*x, *y)) {
+        return Some("same");
+    }
+    if p.len() == 2 {
+        let (a, b) = (model[0], model[1]);
+        if eq(p[0], p[1]) {
+            return Some("equal");
+        }
+        if eq(p[0], b) && eq(p[1], a) {
+            return Some("swap");
+        }
+        if eq(p[0], b) || eq(p[1], a) {
+            return Some("cross");
+        }
+        if eq(p[0], a) || eq(p[1], b) {
+            return Some("one-changes");
+        }
+    }
+    if (0..p.len()).any(|i| outside(kind, i, p[i])) {
+        return Some("extreme");
+    }
+    None
+}
+
+/// Structured valid target vector for `update` (see `classify_update` for the classes).
+fn structured_update(rng: &mut Rng, kind: Kind, model: &[f64]) -> Option<Vec<f64>> {
+    let np = kind.nparams();
+    for _ in 0..8 {
+        let fresh = |rng: &mut Rng, i: usize| if rng.chance(0.25) { extreme_value(rng, kind, i).0 } else { valid_target(rng, kind, i, model).0 };
+        let p: Vec<f64> = if np == 1 {
+            if rng.chance(0.3) {
+                model.to_vec()
+            } else {
+                vec![extreme_value(rng, kind, 0).0]
+            }
+        } else {
+            let (a, b) = (model[0], model[1]);
+            match rng.usize(0, 9) {
+                // both targets exactly equal: a new value, or the current value of one of the two
+                0 | 1 => {
+                    let i = rng.usize(0, 1);
+                    let v = fresh(rng, i);
+                    vec![v, v]
+                }
+                2 => {
+                    let v = model[rng.usize(0, 1)];
+                    vec![v, v]
+                }
+                3 => vec![b, a],
+                // one target equals the current value of the OTHER parameter
+                4 => vec![b, fresh(rng, 1)],
+                5 => vec![fresh(rng, 0), a],
+                // only one of the two changes
+                6 => vec![fresh(rng, 0), b],
+                7 => vec![a, fresh(rng, 1)],
+                8 => vec![a, b],
+                // edges of the domain in one or both positions
+                _ => match rng.usize(0, 2) {
+                    0 => vec![extreme_value(rng, kind, 0).0, valid_target(rng, kind, 1, model).0],
+                    1 => vec![valid_target(rng, kind, 0, model).0, extreme_value(rng, kind, 1).0],
+                    _ => vec![extreme_value(rng, kind, 0).0, extreme_value(rng, kind, 1).0],
+                },
+            }
+        };
+        if vector_ok(kind, &p) {
+            return Some(p);
+        }
+    }
+    None
+}
+
+/// Smallest f64 above `x` (finite x).
+fn next_above(x: f64) -> f64 {
+    if x == 0.0 {
+        5e-324
+    } else if x > 0.0 {
+        f64::from_bits(x.to_bits() + 1)
+    } else {
+        f64::from_bits(x.to_bits() - 1)
     }
 }
 
@@ -507,15 +793,19 @@ fn invalid_target(rng: &mut Rng, kind: Kind, i: usize, model: &[f64]) -> Option<
 
 fn history(cfg: &Cfg, rep: &mut Report, rng: &mut Rng, kind: Kind) {
     let name = kind.name();
-    let n_draws = if cfg.miri() { 8 } else { 64 };
+    // stream length: shorter while a parameter sits at an edge of its domain (samplers may then run
+    // into the iteration budget on both sides, which costs time and decides nothing)
+    let draws_for = |m: &[f64]| if cfg.miri() { 8 } else if (0..m.len()).any(|i| outside(kind, i, m[i])) { 16 } else { 64 };
     let mut hist: Vec<String> = Vec::new();
     let mut hash = Hasher::new().s(name);
     let mut changed = false;
 
     // constructor, valid and invalid
-    let mut model = initial(rng, kind);
+    // (not under Miri: the edges of the domains cost sampler iterations and add nothing to a UB search)
+    let structured_on = !cfg.miri();
+    let mut model = if structured_on { initial_structured(rng, kind) } else { initial(rng, kind) };
     hist.push(format!("new({:?})", model));
-    let ctor_regime = format!("{}:ctor", name);
+    let ctor_regime = if (0..model.len()).any(|i| outside(kind, i, model[i])) { format!("{}:ctor:extreme", name) } else { format!("{}:ctor", name) };
     rep.case(&ctor_regime);
     let mut obj = match guard(|| construct(kind, &model)) {
         Ok(o) => {
@@ -540,7 +830,7 @@ fn history(cfg: &Cfg, rep: &mut Report, rng: &mut Rng, kind: Kind) {
     }
     {
         let twin = construct(kind, &model);
-        let cx = Ctx { kind, history: &hist, n_draws };
+        let cx = Ctx { kind, history: &hist, n_draws: draws_for(&model) };
         compare(rep, &cx, &ctor_regime, &model, &obj, &twin, rng.u64() | 1);
     }
 
@@ -553,8 +843,13 @@ fn history(cfg: &Cfg, rep: &mut Report, rng: &mut Rng, kind: Kind) {
             // ---------------- single setter
             let i = rng.usize(0, kind.nparams() - 1);
             let setter = kind.setters()[i];
-            let regime = format!("{}:{}", name, setter);
+            let mut regime = format!("{}:{}", name, setter);
             let bad = if want_invalid { invalid_target(rng, kind, i, &model) } else { None };
+            // structured valid targets (35 % of the valid setter steps) get their own regime
+            let structured = if structured_on && bad.is_none() && rng.chance(0.35) { structured_value(rng, kind, i, &model) } else { None };
+            if let Some((_, tag)) = structured {
+                regime = format!("{}:{}:{}", name, setter, tag);
+            }
             rep.case(&regime);
             if let Some(v) = bad {
                 hist.push(format!("{}({:?}) [invalid]", setter, v));
@@ -572,13 +867,19 @@ fn history(cfg: &Cfg, rep: &mut Report, rng: &mut Rng, kind: Kind) {
                 // continue from a clean object either way
                 obj = construct(kind, &model);
             } else {
-                let (v, side) = valid_target(rng, kind, i, &model);
+                let v = match structured {
+                    Some((v, _)) => v,
+                    None => {
+                        let (v, side) = valid_target(rng, kind, i, &model);
+                        rep.seen(&format!("cover:{}:{}", regime, side), 1);
+                        v
+                    }
+                };
                 hist.push(format!("{}({:?})", setter, v));
                 hash = hash.s(setter).f(v);
-                rep.seen(&format!("cover:{}:{}", regime, side), 1);
                 let mut next = model.clone();
                 next[i] = v;
-                debug_assert!(valid(kind, &next));
+                debug_assert!(vector_ok(kind, &next));
                 let mut o2 = obj;
                 match guard(|| o2.set(i, v)) {
                     Err(msg) => {
@@ -591,7 +892,7 @@ fn history(cfg: &Cfg, rep: &mut Report, rng: &mut Rng, kind: Kind) {
                         model = next;
                         obj = o2;
                         let twin = construct(kind, &model);
-                        let cx = Ctx { kind, history: &hist, n_draws };
+                        let cx = Ctx { kind, history: &hist, n_draws: draws_for(&model) };
                         if !compare(rep, &cx, &regime, &model, &obj, &twin, seed) {
                             obj = twin; // resynchronise so that one stale step is reported once, under its own regime
                         }
@@ -619,6 +920,10 @@ fn history(cfg: &Cfg, rep: &mut Report, rng: &mut Rng, kind: Kind) {
                         let (lo, hi) = (model[0], model[1]);
                         p[0] = if kind.integer(0) { rng.int(lo as i64, hi as i64) as f64 } else { rng.range(lo, hi) };
                         p[1] = p[0] - 1.0 - rng.int(0, 50) as f64;
+                    }
+                    // between huge bounds the offsets are absorbed (or hi - lo overflows): not an invalid vector
+                    if !(p[0] > p[1] && p[0].is_finite() && p[1].is_finite()) {
+                        continue;
                     }
                 } else {
                     for i in 0..np {
@@ -693,11 +998,22 @@ fn history(cfg: &Cfg, rep: &mut Report, rng: &mut Rng, kind: Kind) {
                         rep.seen(&format!("cover:{}:update:{}:{}", name, &kind.setters()[i][4..], side), 1);
                     }
                 }
-                let regime = if kind.two_sided() { format!("{}:{}", name, tag) } else { format!("{}:update", name) };
+                let mut regime = if kind.two_sided() { format!("{}:{}", name, tag) } else { format!("{}:update", name) };
+                // structured target vectors: half of the valid updates
+                if structured_on && rng.chance(0.5) {
+                    if let Some(q) = structured_update(rng, kind, &model) {
+                        p = q;
+                    }
+                }
+                if !vector_ok(kind, &p) {
+                    p = model.clone(); // an overflow between huge bounds: fall back to the no-change target
+                }
+                if let Some(class) = classify_update(kind, &model, &p) {
+                    regime = format!("{}:update:{}", name, class);
+                }
                 rep.case(&regime);
                 hist.push(format!("update({:?})", p));
                 hash = hash.s("update").fs(&p);
-                debug_assert!(valid(kind, &p));
                 let mut o2 = obj;
                 match guard(|| o2.update(&p)) {
                     Err(msg) => {
@@ -710,7 +1026,7 @@ fn history(cfg: &Cfg, rep: &mut Report, rng: &mut Rng, kind: Kind) {
                         model = p;
                         obj = o2;
                         let twin = construct(kind, &model);
-                        let cx = Ctx { kind, history: &hist, n_draws };
+                        let cx = Ctx { kind, history: &hist, n_draws: draws_for(&model) };
                         if !compare(rep, &cx, &regime, &model, &obj, &twin, seed) {
                             obj = twin;
                         }
@@ -803,13 +1119,14 @@ fn isolation_threads(cfg: &Cfg, rep: &mut Report, rng: &mut Rng) {
 }
 
 pub fn run(cfg: &Cfg, rep: &mut Report) {
-    rep.rule = "random histories: constructor + 1..20 mutations (65% single setter, 35% update; 30% of the steps carry an invalid value; valid targets on a random side of the current value; two-sided bounds: targets above / below / containing / overlapping the old interval), 13 distributions round-robin; after every accepted step the object is compared with a fresh twin (16 probe points, mean, var, 64 seeded draws); then isolation cases (k = 0, 1, 50 other live objects; 8 concurrent threads). non-trivial = at least one accepted mutation changed a parameter; distinct by (distribution, sequence of calls and values)".into();
+    rep.rule = "random histories: constructor + 1..20 mutations (65% single setter, 35% update; 30% of the steps carry an invalid value; valid targets on a random side of the current value; two-sided bounds: targets above / below / containing / overlapping the old interval), 13 distributions round-robin. Structured valid targets: 35% of the valid setter steps take the current value of the same parameter (same), the current value of the other parameter (cross) or an edge of the documented domain (tiny: 5e-324, MIN_POSITIVE, EPSILON/2, log-uniform 1e-300..1e-15 and 1e-15..moderate range; huge: log-uniform moderate range..1e15 and 1e15..1e300, f64::MAX; probabilities up to 1-2^-53; integer parameters up to 1e18, DiscreteUniform bounds up to +-1e15); 50% of the valid updates are structured vectors labelled by class: same / equal (both targets bit-equal: a new value or a current one) / swap / cross (a target equals the current value of the other parameter) / one-changes / extreme; 20% of the histories start from equal parameters or from an edge of the domain. After every accepted step the object is compared with a fresh twin (16 probe points, mean, var, 64 seeded draws; 16 draws while a parameter is outside the moderate range); then isolation cases (k = 0, 1, 50 other live objects; 8 concurrent threads). non-trivial = at least one accepted mutation changed a parameter; distinct by (distribution, sequence of calls and values)".into();
     rep.assume("NaN is not used as an invalid probe: constructors and setters agree in accepting it");
     rep.assume("integer-typed parameters (Binomial n, ChiSquared dof, DiscreteUniform bounds) are mutated with integer values only; update() receives them as integer-valued f64 (its f64→integer cast cannot express other invalid values than the typed setter)");
-    rep.assume("shape parameters are kept >= 0.4 (T: dof >= 0.7) so that verdicts do not depend on the gamma sampler below shape 1/3 (C03); a stream cut by the iteration budget on BOTH object and twin is equal behaviour");
+    rep.assume("ordinary targets keep shape parameters >= 0.4 (T: dof >= 0.7); structured targets visit the whole documented domain. No verdict depends on what a sampler returns there (C03): object and twin run the same code from the same seed under an iteration budget of 1e5 per stream, and a stream cut by the budget on BOTH sides is equal behaviour");
+    rep.assume("validity table = the constructors' documented domains restricted to finite values (x > 0, sigma >= 0, 0 <= p <= 1, dof >= 1, lower <= upper); +-inf and NaN are not presented as valid parameters; integer parameters stay <= 1e18 (DiscreteUniform bounds within +-1e15) where update()'s f64 -> integer cast is exact and upper - lower + 1 cannot overflow");
     rep.assume("Binomial pmf is probed inside 0..=n only (outside it panics on any object, C02)");
     rep.assume("a rejected bulk update may have applied its valid prefix (recorded in notes.rejected_update.valid_prefix_applied); demanded is that the object then equals the twin of exactly those parameters — the property forbids out-of-domain parameters, not non-atomic rejection");
-    let n_hist = cfg.pick(13 * 200, 13 * 3000, 13);
+    let n_hist = cfg.pick(13 * 500, 13 * 5000, 13);
     par_cases(cfg, rep, 1, n_hist, |i, rng, rep| {
         history(cfg, rep, rng, KINDS[i % 13]);
     });
@@ -832,6 +1149,30 @@ pub fn run(cfg: &Cfg, rep: &mut Report) {
                 rep.require(&format!("{}:{}", k.name(), s), 1);
                 rep.require(&format!("cover:{}:{}:up", k.name(), s), 1);
                 rep.require(&format!("cover:{}:{}:down", k.name(), s), 1);
+            }
+            // structured targets (exact coincidences, edges of the documented domains)
+            for s in k.setters() {
+                for t in ["same", "tiny", "huge"] {
+                    rep.require(&format!("{}:{}:{}", k.name(), s, t), 1);
+                }
+                // Binomial: n and p only coincide at 0 and 1
+                if k.nparams() == 2 && k != K::Binomial {
+                    rep.require(&format!("{}:{}:cross", k.name(), s), 1);
+                }
+            }
+            rep.require(&format!("{}:ctor:extreme", k.name()), 1);
+            rep.require(&format!("{}:update:same", k.name()), 1);
+            rep.require(&format!("{}:update:extreme", k.name()), 1);
+            if k.nparams() == 2 {
+                rep.require(&format!("{}:update:one-changes", k.name()), 1);
+                if k != K::Binomial {
+                    rep.require(&format!("{}:update:equal", k.name()), 1);
+                    rep.require(&format!("{}:update:cross", k.name()), 1);
+                }
+                // a swap is valid for a two-sided law only when the bounds coincide (then nothing changes)
+                if k != K::Binomial && !k.two_sided() {
+                    rep.require(&format!("{}:update:swap", k.name()), 1);
+                }
             }
             if k.two_sided() {
                 for t in ["target-above-old-interval", "target-below-old-interval", "target-contains-old-interval", "target-overlaps-old-interval"] {
